@@ -7,6 +7,8 @@ import DimodProofs.C01Py
 import DimodProofs.C01Vars
 import DimodProofs.C01Forms
 import DimodModel.EnergyGen
+import DimodProofs.C01Reads
+import Properties.C05
 
 /-! # C01 — energy/energies is the value of the model's own polynomial at the sample
 
@@ -405,5 +407,115 @@ example : sampleArrayInt [[128, -5]] = .ok (16, [[128, -5]]) ∧ sampleArrayInt 
 
 /-- the rule of seeded change C01-8 (smallest type holding the NEGATED maximum) picks `int8` for 128, and the cast wraps it -/
 example : pickWidthNegated 128 = some 8 ∧ wrapTo 8 128 = -128 := by decide +kernel
+
+
+/-! ## round 8 — every read accessor of a CQM expression reports the polynomial `energies` evaluates
+
+`Expression` keeps `variables_` (position → model index) and `indices_` (model index → position).  The energy loops and
+`iter_quadratic` walk positions; `get_linear` (→ `iter_linear`, the `linear` mapping, `to_polystring`), `get_quadratic`
+(→ the `quadratic` mapping's and `adj`'s `__getitem__`), `degree`, `has_variable` look labels up in `indices_`.  The theorems
+below are about the second reading (`ExprReads.labelPoly`: linear biases read as `[get_linear(v) for v in variables]`,
+every listed interaction re-read as `get_quadratic(u, v)`), on C05's state model, whose `idx` is updated exactly as the three
+loops of `reindex_variables` update `indices_` — here restated over the guards regenerated from expression.h. -/
+
+section Reads
+open ExprReads CqmP
+
+/-- `reindex_variables` over the guards the translator `c01_expr_reindex.py` regenerates from expression.h (`start` default,
+    erase guard, "before start" guard) is the model C05's theorems are about; a changed guard breaks this proof. -/
+theorem reindex_over_generated_guards (e : Expr) (v : Nat) : reindexGen e v = e.reindex v := reindexGen_eq e v
+
+/-- On a well-formed state with sorted neighbourhoods the label-based readings ARE the positional ones: the list
+    `[get_linear(v) for v in variables]` is the base's linear vector, and every interaction `iter_quadratic` lists, re-read
+    through `get_quadratic`, has the bias the iterator reported. -/
+theorem expr_label_reads_are_positional (e : Expr) (hwf : ExprWF e) (hs : ExprSorted e) :
+    labelLin e = e.qb.lin ∧ labelQuad e = (toEn e).qb.iterQuadratic :=
+  ⟨labelLin_eq hwf, labelQuad_eq hwf hs⟩
+
+/-- **Energy = polynomial of the label readings.**  The C++ loop of `Expression::energy` on a sample (indexed by model index)
+    returns offset + Σ get_linear(v)·x_v + Σ get_quadratic(u, v)·x_u·x_v over the expression's variables / listed interactions. -/
+theorem expr_energy_is_polynomial_of_label_reads (e : Expr) (hwf : ExprWF e) (hs : ExprSorted e) (x : Nat → Rat) :
+    (toEn e).energyCpp x = labelPoly e x :=
+  energy_eq_labelPoly hwf hs x
+
+/-- … and both polynomials (label readings, positional readings) are one. -/
+theorem expr_label_polynomial_is_positional (e : Expr) (hwf : ExprWF e) (hs : ExprSorted e) (x : Nat → Rat) :
+    labelPoly e x = positionPoly e x :=
+  labelPoly_eq_positionPoly hwf hs x
+
+/-- **After the parent removed a variable** (`remove_variable(v)`; `fix_variable(v, a)` is `substitute_variable` then this):
+    whatever the private order of the expression — `v+1` listed before `v`, descending, interleaved — the energy of the
+    re-indexed expression is the polynomial of what its label-based accessors report. -/
+theorem reindex_keeps_label_reads (e : Expr) (hwf : ExprWF e) (hs : ExprSorted e) (v : Nat) (x : Nat → Rat) :
+    (toEn (reindexGen e v)).energyCpp x = labelPoly (reindexGen e v) x := by
+  rw [reindex_over_generated_guards]
+  exact energy_eq_labelPoly (reindex_wf hwf v) (reindex_sorted hs v) x
+
+/-- the same for a fix: `substitute_variable(v, 0, a)` followed by `reindex_variables(v)` -/
+theorem fix_keeps_label_reads (e : Expr) (hwf : ExprWF e) (hs : ExprSorted e) (v : Nat) (a : Rat) (x : Nat → Rat) :
+    (toEn (applyOp e (.fix v a))).energyCpp x = labelPoly (applyOp e (.fix v a)) x := by
+  show (toEn (reindexGen (e.substitute v 0 a) v)).energyCpp x = labelPoly (reindexGen (e.substitute v 0 a) v) x
+  exact reindex_keeps_label_reads _ (substitute_wf hwf v 0 a) (substitute_sorted hs v 0 a) v x
+
+/-- the view's own `remove_variable(v)` (`Expression::remove_variable`: positions behind `v` move up, `indices_[*it] -= 1`) and
+    the view's mutators that may append a variable new to the expression (`enforce_variable`): label readings stay the polynomial
+    the loop evaluates -/
+theorem view_mutators_keep_label_reads (e : Expr) (hwf : ExprWF e) (hs : ExprSorted e) (vt : List VT4) (g h : Nat) (b : Rat)
+    (x : Nat → Rat) :
+    (toEn (applyOp e (.viewRemove g))).energyCpp x = labelPoly (applyOp e (.viewRemove g)) x
+    ∧ (toEn (e.addLinear g b)).energyCpp x = labelPoly (e.addLinear g b) x
+    ∧ (toEn (e.setLinear g b)).energyCpp x = labelPoly (e.setLinear g b) x
+    ∧ (toEn (e.addQuadratic vt g h b)).energyCpp x = labelPoly (e.addQuadratic vt g h b) x :=
+  ⟨energy_eq_labelPoly (removeVar_wf hwf g) (removeVar_sorted hs g) x,
+   energy_eq_labelPoly (addLinear_wf hwf g b) (addLinear_sorted hs g b) x,
+   energy_eq_labelPoly (setLinear_wf hwf g b) (setLinear_sorted hs g b) x,
+   energy_eq_labelPoly (addQuadratic_wf hwf vt g h b) (addQuadratic_sorted hs vt g h b) x⟩
+
+/-- **Along every history of public CQM operations** (C05's `Cqm.Op`: building from handed-over models in their own variable
+    order or through the views' mutators, `fix_variable(s)` in place, `remove_variable`, `relabel_variables`, `flip_variable`,
+    the views' `remove_variable` / `remove_interaction`, …), for the objective and every constraint: the energy loop returns
+    the polynomial of the coefficients the label-based accessors report. -/
+theorem cqm_history_energy_is_polynomial_of_label_reads (ops : List Cqm.Op) (hops : ∀ op ∈ ops, OpOK op) (x : Nat → Rat) :
+    (toEn (({} : Cqm).run ops).obj).energyCpp x = labelPoly (({} : Cqm).run ops).obj x ∧
+    ∀ c ∈ (({} : Cqm).run ops).cons, (toEn c.e).energyCpp x = labelPoly c.e x := by
+  have hwf := C05.history_inv ops hops
+  have hs := C05.history_sorted ops hops
+  exact ⟨energy_eq_labelPoly hwf.obj hs.1 x, fun c hc => energy_eq_labelPoly (hwf.cons c hc) (hs.2 c hc) x⟩
+
+/-- `degree(v)` by label is the length of the neighbourhood at the position of `v` -/
+theorem expr_degree_by_label (e : Expr) (hwf : ExprWF e) (i : Nat) (hi : i < e.vars.length) :
+    ExprReads.degree e (e.vars.getD i 0) = (e.qb.adj.getD i []).length :=
+  degree_at hwf hi
+
+/-- the expression `3·x₁ + 5·x₀ + 2·x₀x₁` written with `x₁` FIRST (private order `[1, 0]`), parent removes variable 0 -/
+def succFirst : Expr := rebuild 2 [1, 0] [3, 5] [(0, 1, 2)] 0
+
+/-- as coded: the former variable 1 now carries label 0, is found by label, and the energy at `x = 1` is its bias -/
+example : (reindexGen succFirst 0).vars = [0] ∧ (reindexGen succFirst 0).linear 0 = 3
+    ∧ (toEn (reindexGen succFirst 0)).energyCpp (fun _ => 1) = 3 ∧ labelPoly (reindexGen succFirst 0) (fun _ => 1) = 3 := by
+  decide +kernel
+
+/-- **witness of the class of seeded change C01-9** (`start` defaults to 0, loop 2 re-inserts only labels `> v`): the energy
+    loop still returns 3 but `get_linear` reports 0 — energy ≠ polynomial of the reported coefficients. -/
+theorem seeded_reindex_loses_label_read :
+    (reindexSeed succFirst 0).vars = [0] ∧ (reindexSeed succFirst 0).linear 0 = 0
+    ∧ (toEn (reindexSeed succFirst 0)).energyCpp (fun _ => 1) = 3 ∧ labelPoly (reindexSeed succFirst 0) (fun _ => 1) = 0 := by
+  decide +kernel
+
+/-- hypotheses of `cqm_history_energy_is_polynomial_of_label_reads` met by a concrete history with a private order: objective
+    written `y` before `x`, then `x` fixed; the model returns normally at every step and the objective keeps a variable -/
+example :
+    let ops : List Cqm.Op := [.addVariable .binary (some (.str "x")) none none, .addVariable .integer (some (.str "y")) (some 0) (some 5),
+                              .viewAddLinear none (.str "y") 3, .viewAddLinear none (.str "x") 5,
+                              .viewAddQuadratic none (.str "x") (.str "y") 2, .fixVariable (.str "x") 1]
+    (∀ op ∈ ops, OpOK op) ∧ (({} : Cqm).run (ops.take 5)).obj.vars = [1, 0] ∧ (({} : Cqm).run ops).obj.vars = [0]
+    ∧ (({} : Cqm).run ops).obj.linear 0 = 5 ∧ (({} : Cqm).run ops).obj.qb.off = 5 := by
+  refine ⟨?_, ?_⟩
+  · intro op hop
+    simp only [List.mem_cons, List.not_mem_nil, or_false] at hop
+    rcases hop with h | h | h | h | h | h <;> subst h <;> trivial
+  · decide +kernel
+
+end Reads
 
 end C01
